@@ -494,6 +494,23 @@ def check(ctx):
                 subst[st.targets[0].id] = ({"self.seconds()": 1}, 0)
         want = (frozenset({("self.seconds()", 1), ("self.calls[0].getTime()", -1)}), 0, False)
         nfs = [(lin_cmp(e_, subst, negate=not pol), t) for e_, pol, t in facts]
+        # the due-test must read the clock's CURRENT time: a local holding the time may be used in it only if it is re-read after
+        # every call-out (a running call can advance this very clock; a snapshot taken before the call-out is stale)
+        clockish = {k for k, v in pure.items() if any(src(x) in ("self.seconds()", "self.rightNow") for x in ast.walk(norm(v)))}
+        stale = 0
+        for t, _lab in guards:
+            used = {x.id for x in ast.walk(g.node(t).ast) if isinstance(x, ast.Name) and x.id in clockish}
+            for nm in sorted(used):
+                binds = g.ids(lambda n_: n_.kind == "stmt" and isinstance(n_.ast, (ast.Assign, ast.AnnAssign)) and any(
+                    isinstance(t_, ast.Name) and t_.id == nm for t_ in (n_.ast.targets if isinstance(n_.ast, ast.Assign) else [n_.ast.target])))
+                wit = g.path([out], [t], avoid=binds, strict=True, edge_ok=lambda a_, b_, l: l != "exc")
+                stale += 1
+                ctx.check(wit is None, "advance/clock-reread-after-call", ctx.construct(q, g.node(t).ast),
+                          f"the due-test compares against `{nm}`, a snapshot of the clock taken before the call-out: a running call that "
+                          "advances this clock and schedules / resets a call to the new time leaves it pending when advance() returns",
+                          witness=g.describe(wit))
+        if not stale:
+            ctx.ok("advance/clock-reread-after-call", q + " | <the due-test reads seconds()/rightNow itself>")
         nfs = [(nf, t) for nf, t in nfs if nf is not None]
         hit = [t for nf, t in nfs if nf == want]
         near = [(nf, t) for nf, t in nfs if nf != want]
@@ -747,4 +764,20 @@ MUTANTS += [
            more=[(TASK, _PUMP_DEF, _STEP.replace("                return True\n", "                return False\n") + _PUMP_DEF)]),
     Mutant("operator-key-on-unadjusted-time", TASK, "key=lambda a: a.getTime()", "key=_whenScheduled", expect_rule="sort/",
            more=[(TASK, "@implementer(IReactorTime)\nclass Clock:", "from operator import attrgetter\n_whenScheduled = attrgetter(\"time\")\n\n\n@implementer(IReactorTime)\nclass Clock:")]),
+]
+
+MUTANTS += [
+    # the clock is read once before the loop and the snapshot is compared on every round
+    Mutant("clock-snapshot-before-the-loop", TASK, "        self.rightNow += amount\n        self._sortCalls()\n        while self.calls and self.calls[0].getTime() <= self.seconds():",
+           "        self.rightNow += amount\n        reached = self.rightNow\n        self._sortCalls()\n        while self.calls and self.calls[0].getTime() <= reached:",
+           expect_rule="advance/clock-reread-after-call"),
+    # ... also when the loop lives in a step helper that is handed the snapshot
+    Mutant("step-helper-given-a-snapshot", TASK, _ADV, "        self.rightNow += amount\n        upTo = self.seconds()\n        while self._step(upTo):\n            pass\n",
+           expect_rule="advance/clock-reread-after-call",
+           more=[(TASK, _PUMP_DEF, _STEP.replace("def _step(self):", "def _step(self, limit):").replace("<= self.seconds()", "<= limit") + _PUMP_DEF)]),
+]
+SILENT += [
+    Silent("clock-reread-into-local-each-round", TASK, _ADV,
+           "        self.rightNow += amount\n        self._sortCalls()\n        while self.calls:\n            reached = self.seconds()\n            if self.calls[0].getTime() > reached:\n                break\n"
+           "            call = self.calls.pop(0)\n            call.called = 1\n            call.func(*call.args, **call.kw)\n            self._sortCalls()\n"),
 ]
